@@ -1270,7 +1270,11 @@ impl<'a> ParseState<'a, &'a str> {
             .copulas()
             .into_iter()
             // 是否有任意一个是「环境切片」的开头
-            .any(|copula| env_slice.starts_with_str(copula))
+            // * ⚠️`starts_with_str`在「环境切片比系词短」时，只要切片是系词的前缀就会返回`true`
+            //   * 🚩故需先检验长度，避免输入末尾的`工具`被当作`工`+`具有`的开头
+            .any(|copula| {
+                env_slice.len() >= copula.chars().count() && env_slice.starts_with_str(copula)
+            })
     }
 
     /// 消耗&置入/词项/原子
